@@ -531,10 +531,26 @@ CTOR_KINDS = {'Coordinate': 'Coordinate', 'Quantity': 'Quantity', 'Uri': 'Uri', 
 SINGLETONS = {'MARKER': 'MARKER', 'NA': 'NA', 'REMOVE': 'REMOVE'}
 
 
+class _RenameParam(ast.NodeTransformer):
+    def __init__(self, old, new):
+        self.old, self.new = old, new
+
+    def visit_Name(self, node):
+        if node.id == self.old:
+            return ast.copy_location(ast.Name(id=self.new, ctx=node.ctx), node)
+        return node
+
+
 def action_returns(action):
-    """List of returned expressions (ast) of a parse action."""
+    """List of returned expressions (ast) of a parse action; the (single) parameter of a lambda action is
+    renamed to `toks`, so that renaming it in the source does not matter."""
     if isinstance(action, Closure):
-        return [action.node.body]
+        body = action.node.body
+        params = [a.arg for a in action.node.args.args]
+        if len(params) == 1 and params[0] != 'toks':
+            import copy
+            body = _RenameParam(params[0], 'toks').visit(copy.deepcopy(body))
+        return [body]
     if isinstance(action, FuncRef):
         return [n.value for n in ast.walk(action.node) if isinstance(n, ast.Return) and n.value is not None]
     return []
